@@ -2,12 +2,15 @@
 package c08
 
 import (
+	"bytes"
+	"context"
 	"encoding/xml"
 	"errors"
 	"fmt"
 	"io"
 	"strings"
 	"testing"
+	"time"
 
 	"pgregory.net/rapid"
 
@@ -60,9 +63,15 @@ type tcase struct {
 	// the application has closed its output stream before the peer's input is
 	// served: replies cannot be written any more, the framing must not change
 	outputClosed bool
+	// the application has a request of its own outstanding (SendIQ); the item of
+	// kind "response" answers it: it goes to the waiting caller, which reads
+	// respRead of it before closing it, and never to the handler
+	respRead string // none start nested all
 }
 
 var conds = []string{"bad-format", "conflict", "host-unknown", "not-authorized", "policy-violation", "system-shutdown", "undefined-condition", "not-well-formed"}
+
+const ownReqID = "own-request-1"
 
 func genConstruct(t *rapid.T, nested bool) *construct {
 	kinds := []string{"streamerr", "restart", "unknownstream", "comment", "pi", "directive", "malformed"}
@@ -172,6 +181,16 @@ func genCase(t *rapid.T) tcase {
 				// a stanza in the content namespace, often with a from
 				node = gen.Tree(t, "st", rapid.IntRange(0, 3).Draw(t, "depth"), ns)
 				node.Name = xml.Name{Space: ns, Local: rapid.SampledFrom([]string{"iq", "message", "presence"}).Draw(t, "stname")}
+				if rapid.IntRange(0, 5).Draw(t, "lookalike") == 0 {
+					// named like a stanza but qualified by another namespace (the other
+					// stream content namespace, or something unrelated): not a stanza
+					// of this stream, presented exactly as it arrived
+					other := stanza.NSServer
+					if tc.s2s {
+						other = stanza.NSClient
+					}
+					node.Name.Space = rapid.SampledFrom([]string{other, "urn:verif:x", "jabber:component:accept"}).Draw(t, "lookalikens")
+				}
 				var attrs []xml.Attr
 				for _, a := range node.Attr {
 					if a.Name.Local != "from" && a.Name.Local != "type" {
@@ -212,6 +231,11 @@ func genCase(t *rapid.T) tcase {
 		case k <= 8:
 			it.kind = "ws"
 			it.raw = rapid.SampledFrom([]string{" ", "\n", "\t \n", "   "}).Draw(t, "ws")
+		case k == 9 && tc.respRead == "" && !tc.outputClosed && rapid.Bool().Draw(t, "response"):
+			// the answer to the application's own outstanding request
+			tc.respRead = rapid.SampledFrom([]string{"none", "start", "nested", "all"}).Draw(t, "respRead")
+			it.kind = "response"
+			it.raw = `<iq xmlns="` + ns + `" type="result" id="` + ownReqID + `"><query xmlns="urn:verif:resp"><item n="1"><v>t</v></item><item n="2"/></query></iq>`
 		case k == 9:
 			it.kind = "close"
 			it.raw = "</stream:stream>"
@@ -238,7 +262,7 @@ func (tc tcase) input() string {
 
 func (tc tcase) String() string {
 	var sb strings.Builder
-	fmt.Fprintf(&sb, "s2s=%v local=%s (session created as %q, negotiated=%q) output-closed-first=%v input=%q progs=[", tc.s2s, tc.local, tc.origin.String(), tc.negotiated, tc.outputClosed, tc.input())
+	fmt.Fprintf(&sb, "s2s=%v local=%s (session created as %q, negotiated=%q) output-closed-first=%v own-request-outstanding(caller reads %q of the response)=%v input=%q progs=[", tc.s2s, tc.local, tc.origin.String(), tc.negotiated, tc.outputClosed, tc.respRead, tc.respRead != "", tc.input())
 	for _, it := range tc.items {
 		if it.kind == "elem" {
 			fmt.Fprintf(&sb, "%s:%d:%d ", it.prog.mode, it.prog.k, it.prog.extra)
@@ -360,9 +384,50 @@ func check(t interface {
 			rec.progs = append(rec.progs, it.prog)
 		}
 	}
+	octx, ocancel := context.WithCancel(context.Background())
+	defer ocancel()
+	odone := make(chan struct{})
+	var respToks []string
+	gotResp := false
+	if tc.respRead != "" {
+		go func() {
+			defer close(odone)
+			resp, _ := s.SendIQ(octx, xt.El(opts.NS(), "iq", []xml.Attr{xt.A("type", "get"), xt.A("id", ownReqID)}, xt.El("urn:verif:resp", "query", nil)).Reader())
+			if resp == nil {
+				return
+			}
+			gotResp = true
+			limit := map[string]int{"none": 0, "start": 1, "nested": 4, "all": 1000}[tc.respRead]
+			for i := 0; i < limit; i++ {
+				tok, err := resp.Token()
+				switch tk := tok.(type) {
+				case xml.StartElement:
+					respToks = append(respToks, "<"+tk.Name.Local)
+				case xml.EndElement:
+					respToks = append(respToks, "</"+tk.Name.Local)
+				}
+				if err != nil {
+					break
+				}
+			}
+			_ = resp.Close()
+		}()
+		// the request must be registered and on the wire before input is served
+		conn.WaitOutput(func(b []byte) bool {
+			return bytes.Contains(b, []byte(ownReqID)) && bytes.HasSuffix(bytes.TrimSpace(b), []byte("</iq>"))
+		}, 5*time.Second)
+	} else {
+		close(odone)
+	}
 	var serveErr error
 	if p := ev.Guard(func() { serveErr = s.Serve(rec) }); p != "" {
 		fail("Serve panicked: %s", p)
+	}
+	ocancel()
+	select {
+	case <-odone:
+	case <-time.After(10 * time.Second):
+		fail("the application's own SendIQ did not return after Serve had returned and its context was cancelled")
 	}
 
 	// expected invocations
@@ -372,12 +437,15 @@ func check(t interface {
 		bad  *construct
 	}
 	var want []exp
-	end := "eof" // eof | close | streamerr | error
+	responseServed := false // the response was reached before the stream ended
+	end := "eof"            // eof | close | streamerr | error
 	var wantErr *construct
 loop:
 	for _, it := range tc.items {
 		switch it.kind {
 		case "ws":
+		case "response":
+			responseServed = true
 		case "elem":
 			want = append(want, exp{it.node, it.bad})
 			if it.bad != nil {
@@ -397,6 +465,16 @@ loop:
 		}
 	}
 
+	if tc.respRead != "" {
+		if responseServed && !gotResp {
+			fail("the answer to the application's own request arrived (before anything that ends the stream) but SendIQ did not get it")
+		}
+		if gotResp && tc.respRead == "all" {
+			if got, wantToks := strings.Join(respToks, " "), "<iq <query <item <v </v </item <item </item </query </iq"; got != wantToks {
+				fail("the caller read its response to the end and saw %q, want %q", got, wantToks)
+			}
+		}
+	}
 	if tc.outputClosed && len(rec.inv) < len(want) {
 		// a reply that cannot be written may end Serve early (with an error):
 		// what was served must still be a prefix of the expected framing
@@ -540,6 +618,9 @@ func classify(tc tcase) (nontrivial bool, classes []string) {
 	}
 	if tc.outputClosed {
 		classes = append(classes, "output-closed-before-serving")
+	}
+	if tc.respRead != "" {
+		classes = append(classes, "response-to-own-request-among-the-input", "response-read-"+tc.respRead)
 	}
 	if !tc.origin.Equal(jid.JID{}) {
 		classes = append(classes, "address-assigned-during-negotiation")
